@@ -38,7 +38,11 @@ func P(id int) {
 `
 
 func main() {
-	root, out := "/repo", "/verif/.build/instr"
+	vroot := os.Getenv("VERIF_ROOT")
+	if vroot == "" {
+		vroot = "/verif"
+	}
+	root, out := "/repo", vroot+"/.build/instr"
 	os.RemoveAll(out)
 	must(os.MkdirAll(out, 0o755))
 	overlay := map[string]string{}
@@ -141,7 +145,7 @@ func main() {
 	h.WriteString("\treturn out\n}\n")
 	hf := filepath.Join(out, "zz_c18_globals.go")
 	must(os.WriteFile(hf, h.Bytes(), 0o644))
-	overlay["/verif/checks/zz_c18_globals.go"] = hf
+	overlay[vroot+"/checks/zz_c18_globals.go"] = hf
 	ob, _ := json.MarshalIndent(map[string]any{"Replace": overlay}, "", " ")
 	must(os.WriteFile(filepath.Join(out, "overlay.json"), ob, 0o644))
 	fmt.Printf("instr: %d yield points, %d files, %d packages\n", nextID, len(overlay), len(pkgs))
